@@ -125,6 +125,9 @@ def main():
     o.append("\n## Changes written by independent sub-agents, round 6 (`/verif/seeded6/<id>/`, 16 properties)\n")
     o.append("All five earlier changes described. Run after the second reviewer pass (DESIGN 8.2); time allowed sixteen of the twenty properties.\n")
     o.append(table_seeds("seeded6"))
+    o.append("\n## Changes written by independent sub-agents, round 7 (`/verif/seeded7/<id>/`)\n")
+    o.append("All six earlier changes described (five for the four properties round 6 had skipped). Run in the last session, against the harness as committed at the end of the previous one.\n")
+    o.append(table_seeds("seeded7"))
     rb = f"{ROOT}/seeded/ROBUSTNESS.tsv"
     if os.path.exists(rb):
         o.append("\n## Seed robustness of the concurrency-dependent catches\n")
